@@ -18,8 +18,12 @@ const PoolOpt POOL[] = {
   {'p', "path", Process::argumentFlag},
   {256, "verbose", Process::optionFlag},
   {257, "level", Process::argumentFlag | Process::optionalFlag},
+  // names that are proper prefixes of EARLIER entries: an exact name must select its own entry, not the first entry it is a prefix of
+  {258, "verb", Process::optionFlag},
+  {259, "pa", Process::argumentFlag},
 };
-const int NPOOL = 7;
+const int NPOOL = 9;
+const long FULLMASK = (1L << NPOOL) - 1;
 const size_t MAXTOK = 12;
 
 struct Event {
@@ -119,7 +123,7 @@ template <usize N> Process::Arguments* mk(int argc, char** argv, const Process::
 Process::Arguments* mkArgs(size_t n, int argc, char** argv, const Process::Option* tbl) {
   switch (n) {
     case 1: return mk<1>(argc, argv, tbl); case 2: return mk<2>(argc, argv, tbl); case 3: return mk<3>(argc, argv, tbl); case 4: return mk<4>(argc, argv, tbl);
-    case 5: return mk<5>(argc, argv, tbl); case 6: return mk<6>(argc, argv, tbl); default: return mk<7>(argc, argv, tbl);
+    case 5: return mk<5>(argc, argv, tbl); case 6: return mk<6>(argc, argv, tbl); case 7: return mk<7>(argc, argv, tbl); case 8: return mk<8>(argc, argv, tbl); default: return mk<9>(argc, argv, tbl);
   }
 }
 }  // namespace
